@@ -94,12 +94,17 @@ Definition lift {A} (o : outcome A) : M A := (o, []).
 
 Definition fuel_of (bs : list Z) : nat := S (S (length bs)).
 
-(* ---------------- the frame header a decoder acts upon ----------------
+(* ---------------- the frame header of a stream ----------------
    seg_data / seg_rest: payload and remainder of a marker segment, from its length field alone.
-   frame_S m: S = width*height*components of the first segment with marker code m that the marker
-   loop of a decoder meets (other segments are skipped by their length; the walk ends at SOS, EOI
-   or when no marker can be read). Since the decoders reject a second frame header this is the
-   declared size of the unique frame header of the stream. *)
+   is_sof: standard.IsSOF(marker) || marker == 0xFFF7 (C0-C3, C5-C7, C9-CB, CD-CF, F7).
+   frame_S: S = width*height*components of the FIRST frame header of any kind met by a marker loop
+   (other segments are skipped by their length; the walk ends at SOS, EOI or when no marker can be
+   read). The decoders reject a second frame header (F44) and a frame header of a process they do
+   not implement (F47), so this is the declared size of the only frame header a decoder can act on.
+   harness/suites/parsers/sniff.go SniffJPEG is the Go twin of frame_declared (compared case by
+   case in the correspondence run); sniff_j2k is the twin of SniffJ2K. *)
+Definition is_sof (m : Z) : bool :=
+  ((192 <=? m) && (m <=? 207) && negb (m =? 196) && negb (m =? 200) && negb (m =? 204)) || (m =? 247).
 Definition seg_data (bs : list Z) : list Z :=
   match bs with a :: b :: r => firstn (Z.to_nat (a * 256 + b - 2)) r | _ => [] end.
 Definition seg_rest (bs : list Z) : list Z :=
@@ -107,63 +112,23 @@ Definition seg_rest (bs : list Z) : list Z :=
 Definition sof_S (d : list Z) : Z :=
   if zlen d <? 6 then 0
   else (znth d 3 0 * 256 + znth d 4 0) * (znth d 1 0 * 256 + znth d 2 0) * znth d 5 0.
-Fixpoint frame_S (m : Z) (fuel : nat) (bs : list Z) : Z :=
+Fixpoint frame_S (fuel : nat) (bs : list Z) : Z :=
   match fuel with
   | O => 0
   | S k =>
     match read_marker bs with
     | Ok (mk, r) =>
-      if mk =? m then sof_S (seg_data r)
+      if is_sof mk then sof_S (seg_data r)
       else if (mk =? 218) || (mk =? 217) then 0
-      else if has_length mk then frame_S m k (seg_rest r)
-      else frame_S m k r
+      else if has_length mk then frame_S k (seg_rest r)
+      else frame_S k r
     | _ => 0
     end
   end.
-Definition frame_declared (m : Z) (bs : list Z) : Z :=
+Definition frame_declared (bs : list Z) : Z :=
   match read_marker bs with
-  | Ok (mk, r) => if mk =? 216 then frame_S m (fuel_of bs) r else 0
+  | Ok (mk, r) => if mk =? 216 then frame_S (fuel_of bs) r else 0
   | _ => 0
-  end.
-
-(* ---------------- the independent frame-header walker (C09: declared S) ----------------
-   Mirrors harness/suites/parsers/sniff.go SniffJPEG / SniffJ2K, NOT any function of /repo:
-   S = width*height*components of the FIRST frame header of the stream, 0 if none. *)
-Definition is_sof (m : Z) : bool :=
-  ((192 <=? m) && (m <=? 207) && negb (m =? 196) && negb (m =? 200) && negb (m =? 204)) || (m =? 247).
-
-Fixpoint skip_ff_plain (bs : list Z) : list Z :=
-  match bs with
-  | b :: r => if b =? 255 then skip_ff_plain r else bs
-  | [] => []
-  end.
-
-Fixpoint sniff_jpeg_loop (fuel : nat) (bs : list Z) : Z :=
-  match fuel with
-  | O => 0
-  | S k =>
-    match bs with
-    | b :: r =>
-      if negb (b =? 255) then 0 else
-      match skip_ff_plain r with
-      | [] => 0
-      | m :: r1 =>
-        if m =? 0 then 0 else
-        if m =? 217 then 0 else
-        if (m =? 216) || ((208 <=? m) && (m <=? 215)) then sniff_jpeg_loop k r1 else
-        match r1 with
-        | l1 :: l2 :: r2 =>
-          let len := l1 * 256 + l2 in
-          if is_sof m && (8 <=? len) && (6 <=? zlen r2) then
-            (znth r2 3 0 * 256 + znth r2 4 0) * (znth r2 1 0 * 256 + znth r2 2 0) * znth r2 5 0
-          else if (len <? 2) || (zlen r2 <? len - 2) then 0
-          else if m =? 218 then 0 (* SOS: header over, nothing declared *)
-          else sniff_jpeg_loop k (skipn (Z.to_nat (len - 2)) r2)
-        | _ => 0
-        end
-      end
-    | [] => 0
-    end
   end.
 
 Definition be32 (l : list Z) (o : Z) : Z :=
@@ -177,9 +142,9 @@ Definition sniff_j2k (bs : list Z) : Z :=
   | _ => 0
   end.
 
+(* declared S of a stream: SIZ for a JPEG 2000 codestream, else the first frame header *)
 Definition declared_S (bs : list Z) : Z :=
   match bs with
   | 255 :: 79 :: _ => sniff_j2k bs
-  | 255 :: 216 :: r => sniff_jpeg_loop (fuel_of bs) r
-  | _ => 0
+  | _ => frame_declared bs
   end.
